@@ -11,7 +11,7 @@
    found its own name rebound (by the body: let, def, set, a parameter; or from outside while an
    alias still runs the old body).  This is exactly what the finding tco-by-name violates. *)
 From Coq Require Import ZArith List.
-Require Import ZV.Model.RefSemTco ZV.Proofs.RefSemTcoProofs.
+Require Import ZV.Model.RefSemTco ZV.Proofs.RefSemTcoProofs ZV.Proofs.RefSemTcoConverse ZV.Proofs.RefSemTcoSpace.
 Import ListNotations.
 Open Scope Z_scope.
 
@@ -41,12 +41,47 @@ Theorem tail_invisible_apply : forall n f args s r s',
 Proof. exact tail_invisible_apply_proof. Qed.
 Print Assumptions tail_invisible_apply.
 
-(* PARTIAL: the converse (every conclusive reference run is matched by the optimising model, or
-   the strict verdict is SShadow:
-     forall k failat forms o, eval_program_cfg k failat forms = o -> o_res o <> Fuel ->
-       exists n b h, eval_program_tco true false n failat forms = (o, b, h) \/ b = true)
-   is not proved (it needs the re-association of nested activations into the loop); the check
-   compares the two extracted evaluators on every generated case instead. *)
+(* THE CONVERSE (for ALL programs of the core): whenever the reference run finishes, the strict
+   optimising run with twice the fuel finishes with the same outcome (value snapshot / error class,
+   trace) -- or it stops with the verdict SShadow.  The optimisation never loses a result and
+   terminates whenever the reference does.  Proof: induction on the fuel of the reference
+   evaluator; a chain of nested applies of the running closure becomes iterations of tloop
+   (Proofs/RefSemTcoConverse.v: conv_main). *)
+Theorem tail_invisible_converse : forall k failat forms o,
+  eval_program_cfg k failat forms = o -> o_res o <> Fuel ->
+  (exists h, eval_program_tco true false (2 * k) failat forms = (o, false, h)) \/
+  snd (fst (eval_program_tco true false (2 * k) failat forms)) = true.
+Proof. exact tail_invisible_converse_proof. Qed.
+Print Assumptions tail_invisible_converse.
+
+(* the same with the final store (equal stores) *)
+Theorem tail_invisible_converse_store : forall k failat forms r s',
+  ev_begin (eval k) [O] forms (init_store failat) = (r, s') -> r <> Fuel ->
+  tev_begin (eval_tco true false (2 * k) None) false [O] forms (init_store failat) = (r, s') \/
+  exists s'', tev_begin (eval_tco true false (2 * k) None) false [O] forms (init_store failat) = (Sig SShadow, s'').
+Proof. exact tail_invisible_converse_run_proof. Qed.
+Print Assumptions tail_invisible_converse_store.
+
+(* and for any call of any function value in any store *)
+Theorem tail_invisible_converse_apply : forall k f args s r s',
+  apply k f args s = (r, s') -> r <> Fuel ->
+  apply_tco true false (2 * k) f args s = (r, s') \/ exists s'', apply_tco true false (2 * k) f args s = (Sig SShadow, s'').
+Proof. exact converse_apply_proof. Qed.
+Print Assumptions tail_invisible_converse_apply.
+
+(* with the side condition as a property of the program:
+   no_self_shadow failat forms := no strict run, whatever its fuel, ends with the verdict SShadow *)
+Theorem tail_invisible_converse_no_self_shadow : forall k failat forms o,
+  eval_program_cfg k failat forms = o -> o_res o <> Fuel -> no_self_shadow failat forms ->
+  exists n h, eval_program_tco true false n failat forms = (o, false, h).
+Proof. exact tail_invisible_converse_cond_proof. Qed.
+Print Assumptions tail_invisible_converse_no_self_shadow.
+
+(* the reference evaluator never produces the two signals of the optimising model *)
+Theorem reference_never_signals_tail : forall k env e s r s' g,
+  eval k env e s = (r, s') -> bad g -> r <> Sig g.
+Proof. intros k env e s r s' g. exact (proj1 (ref_clean k) env e s r s' g). Qed.
+Print Assumptions reference_never_signals_tail.
 
 (* without the side condition the statement is false: the by-name jump (strict = false, what the
    real code does) gives 5 where the reference semantics gives 42; the strict run names it. *)
@@ -77,6 +112,29 @@ Theorem tail_space_constant : forall strict nm ps rest body cenv (d B : nat),
     depth s' = d /\ (hwm s' <= B)%nat.
 Proof. exact tail_space_constant_proof. Qed.
 Print Assumptions tail_space_constant.
+
+(* tail_space_constant WITHOUT the per-iteration hypothesis, for a syntactic class of loops
+   (Proofs/RefSemTcoSpace.v): [simple f np tl e] = e is built from literals, variables, fn,
+   begin / cond / and / or / let / letseq / newScope / def / set (binding no first-order
+   primitive name), calls whose head is the NAME of a first-order primitive (every builtin of the
+   core but map and apply), and calls of f itself with np arguments where the flag tl is set
+   (computed with the generator's rules, so: in tail position).  For a function
+   (defn f [ps] body) without rest parameter whose body is in the class and whose static chain
+   resolves the primitive names to the primitives (prims_ok: true of the global frame,
+   prims_ok_init), one call is ONE activation however many iterations it makes: the depth is
+   restored and the high-water mark is that of a single activation. *)
+Theorem tail_space_constant_syntactic : forall strict f ps body cenv,
+  is_safe_name f = false -> (forall x, In x ps -> is_safe_name x = false) ->
+  simple_seq f (length ps) true body = true ->
+  forall n args s r s', prims_ok s cenv ->
+    apply_tco strict true n (VClos (Some f) ps None body cenv) args s = (r, s') ->
+    depth s' = depth s /\ (hwm s' = hwm s \/ hwm s' = Nat.max (hwm s) (S (depth s))).
+Proof. exact tail_space_constant_syntactic_proof. Qed.
+Print Assumptions tail_space_constant_syntactic.
+
+Theorem global_frame_resolves_primitives : forall failat, prims_ok (init_store failat) [O].
+Proof. exact prims_ok_init. Qed.
+Print Assumptions global_frame_resolves_primitives.
 
 (* tail_positions: in_tail_position (Proofs file) is the inductive closure of: last form of
    begin / every arm body and the default of cond / last body form of let, letseq, newScope /
@@ -136,6 +194,16 @@ Example loop_hwm_40 : snd (eval_program_tco false true 200 0 (loop_prog true 40)
 Proof. vm_compute. reflexivity. Qed.
 Example nontail_hwm_40 : snd (eval_program_tco false true 400 0 (loop_prog false 40)) = 41%nat.
 Proof. vm_compute. reflexivity. Qed.
+Example class_accepts_loop :
+  simple_seq 100 1 true
+    [ECond [(ECall (EVar 8) [EVar 101; EInt 0], EInt 0)]
+       (ELet false [(102, ECall (EVar 1) [EVar 101; EInt 1])]
+          [EDef 103 (EInt 5);
+           EAnd [EBool true; ECall (EVar 100) [ECall (EVar 2) [EVar 101; EInt 1]]]])] = true
+  /\ simple_seq 100 1 true   (* the non-tail twin is outside the class *)
+    [ECond [(ECall (EVar 8) [EVar 101; EInt 0], EInt 0)]
+       (ECall (EVar 1) [EInt 0; ECall (EVar 100) [ECall (EVar 2) [EVar 101; EInt 1]]])] = false.
+Proof. vm_compute. split; reflexivity. Qed.
 Example in_tail_position_nested :
   in_tail_position (ECond [(EBool true, EBegin ([EInt 1] ++ [EAnd ([EBool true] ++ [EVar 7])]))] ENil) (EVar 7).
 Proof. apply (tp_cond_arm [] (EBool true) _ [] ENil). apply tp_begin. apply tp_and. apply tp_here. Qed.
